@@ -59,7 +59,106 @@ type c01Run struct {
 	// coverage
 	rolls, truncs, reopens, msets, readerStarts int
 	truncClasses                                map[string]int
+	// standing readers: opened once and advanced a few messages after every
+	// later operation (rolls, replicated sets, truncations beyond their
+	// position, HW moves), unlike the drain-from-every-start readers of check()
+	standing              []*c01Standing
+	standingReads         int
+	standingAcrossTrunc   int
+	standingAcrossSegDrop int
+	standingEager         bool // enumeration: open readers at the first opportunity
 }
+
+type c01Standing struct {
+	r         *Reader
+	pos       int64 // next offset this reader must deliver
+	committed bool
+	start     int64
+	sawTrunc  bool
+}
+
+// standingStep advances every standing reader by a few messages and opens new
+// ones now and then.
+func (c *c01Run) standingStep(rng *kit.RNG) { c.standingAdvance(rng, false) }
+
+// standingDrain lets every standing reader catch up completely (end of a program).
+func (c *c01Run) standingDrain(rng *kit.RNG) { c.standingAdvance(rng, true) }
+
+func (c *c01Run) standingAdvance(rng *kit.RNG, drain bool) {
+	if c.failed || c.log == nil || rng == nil {
+		return
+	}
+	n := c.next()
+	if !drain && len(c.standing) < 4 && n > 0 && (rng.Chance(1, 3) || (c.standingEager && len(c.standing) < 2)) {
+		st := &c01Standing{committed: rng.Chance(1, 3)}
+		if st.committed {
+			st.start = int64(rng.Intn(int(c.hw) + 2))
+		} else {
+			st.start = int64(rng.Intn(int(n) + 1))
+		}
+		st.pos = st.start
+		r, err := c.log.NewReader(st.start, !st.committed)
+		if err == nil {
+			st.r = r
+			c.standing = append(c.standing, st)
+		} else if st.start < n {
+			c.fail("C01:reader-open", fmt.Sprintf("NewReader(start=%d, uncommitted=%v) failed: %v (hw=%d newest=%d)", st.start, !st.committed, err, c.hw, n-1))
+			return
+		}
+	}
+	hb := make([]byte, 28)
+	for _, st := range c.standing {
+		limit := n
+		if st.committed && c.hw+1 < limit {
+			limit = c.hw + 1
+		}
+		k := rng.Intn(4)
+		if drain || rng.Chance(1, 8) {
+			k = int(n) // catch up completely now and then
+		}
+		for i := 0; i < k && st.pos < limit; i++ {
+			var (
+				m   SerializedMessage
+				off int64
+				ts  int64
+				ep  uint64
+				err error
+			)
+			func() {
+				defer func() {
+					if p := recover(); p != nil {
+						err = fmt.Errorf("panic: %v", p)
+					}
+				}()
+				m, off, ts, ep, err = st.r.ReadMessage(vfCancelled, hb)
+			}()
+			what := fmt.Sprintf("standing reader (opened at %d, uncommitted=%v, had delivered up to %d, lived through a truncation: %v)", st.start, !st.committed, st.pos-1, st.sawTrunc)
+			if err != nil {
+				c.fail("C01:standing-reader-error", fmt.Sprintf("%s failed at offset %d although the log holds [0,%d] (hw=%d): %v", what, st.pos, n-1, c.hw, err))
+				return
+			}
+			rec, derr := vfDecode(m, off, ts, ep)
+			if derr != nil {
+				c.fail("C01:standing-reader-error", fmt.Sprintf("%s offset %d: %v", what, off, derr))
+				return
+			}
+			if !vfSameRec(rec, c.model[st.pos]) {
+				fp := "C01:standing-reader-content"
+				if rec.Off != st.pos {
+					fp = "C01:standing-reader-offset"
+				}
+				c.fail(fp, fmt.Sprintf("%s delivered %v, expected %v", what, rec, c.model[st.pos]))
+				return
+			}
+			st.pos++
+			c.standingReads++
+			if st.sawTrunc {
+				c.standingAcrossTrunc++
+			}
+		}
+	}
+}
+
 
 func (c *c01Run) next() int64 { return int64(len(c.model)) }
 
@@ -191,7 +290,22 @@ func (c *c01Run) step(op c01Op) {
 		}
 		c.truncs++
 		c.truncClasses[op.Class]++
+		// A reader survives a truncation if it still has retained messages in
+		// front of it (position < cut).  One that stands at or beyond the cut has
+		// consumed everything retained and may hold a deleted segment; the server
+		// never keeps such a reader (replicator readers are closed before a
+		// replica truncates), so it is dropped here.
+		keep := c.standing[:0]
+		for _, st := range c.standing {
+			if st.pos >= op.Arg {
+				continue
+			}
+			st.sawTrunc = true
+			keep = append(keep, st)
+		}
+		c.standing = keep
 	case "R":
+		c.standing = nil // the log object is replaced
 		if err := c.log.Close(); err != nil {
 			c.fail("C01:close-error", fmt.Sprintf("Close failed: %v", err))
 			return
@@ -397,6 +511,8 @@ func (c *c01Run) finish(sig string) {
 	c.rep.Count("reopens", int64(c.reopens))
 	c.rep.Count("replicated_message_sets", int64(c.msets))
 	c.rep.Count("reader_starts_checked", int64(c.readerStarts))
+	c.rep.Count("standing_reader_reads", int64(c.standingReads))
+	c.rep.Count("standing_reader_reads_after_living_through_a_truncation", int64(c.standingAcrossTrunc))
 	for k, v := range c.truncClasses {
 		c.rep.Count("truncate_"+k, int64(v))
 	}
@@ -421,7 +537,7 @@ func (c *c01Run) cleanup() {
 func TestVerifC01Programs(t *testing.T) {
 	rep := kit.NewReport("C01", "programs")
 	defer rep.Write()
-	rep.SetRule("seeded operation programs (Append batches 1..8, replicated AppendMessageSet in chunks, Truncate at 7 position classes, Close+New, SetHighWatermark) over 7 MaxSegmentBytes values; after every step NewestOffset/OldestOffset, full read-back from every start offset (all when <=48 messages) committed+uncommitted, digest stability and a raw parse of the .log files are compared with a reference model; non-trivial = program rolled a segment and truncated or reopened; distinct = program text + segment size")
+	rep.SetRule("seeded operation programs (Append batches 1..8, replicated AppendMessageSet in chunks, Truncate at 7 position classes, Close+New, SetHighWatermark) over 7 MaxSegmentBytes values; after every step NewestOffset/OldestOffset, full read-back from every start offset (all when <=48 messages) committed+uncommitted, up to 4 STANDING readers (opened once, advanced 0-3 messages after every later operation incl. truncations beyond their position and HW moves, drained at the end), digest stability and a raw parse of the .log files are compared with a reference model; non-trivial = program rolled a segment and truncated or reopened; distinct = program text + segment size")
 	rep.Assume("truncation offsets are > HW, as in the replication protocol (a follower never truncates committed data)")
 	root := kit.NewRNG(kit.Mix(kit.Seed(), 0xC01))
 	nprog := kit.Scale(260, 2600)
@@ -466,7 +582,9 @@ func TestVerifC01Programs(t *testing.T) {
 			}
 			c.step(op)
 			c.check(rng)
+			c.standingStep(rng)
 		}
+		c.standingDrain(rng)
 		if p < 3 {
 			rep.Sample(map[string]any{"maxSegmentBytes": maxSeg, "program": strings.Join(c.trace, " "), "final_messages": len(c.model)})
 		}
@@ -506,6 +624,7 @@ func TestVerifC01Enum(t *testing.T) {
 		}
 		rng := kit.NewRNG(kit.Mix(base, uint64(idx)))
 		c := newC01Run(rep, rng, maxSeg)
+		c.standingEager = true
 		defer c.cleanup()
 		if err := c.open(); err != nil {
 			rep.Violation("C01:open-error", err.Error(), nil)
@@ -543,7 +662,9 @@ func TestVerifC01Enum(t *testing.T) {
 			}
 			c.step(op)
 			c.check(rng)
+			c.standingStep(rng)
 		}
+		c.standingDrain(rng)
 		if len(prog) == maxLen && idx%977 == 0 {
 			rep.Sample(map[string]any{"maxSegmentBytes": maxSeg, "program": strings.Join(c.trace, " ")})
 		}
